@@ -438,8 +438,16 @@ def replay(pid: str, path: Path) -> int:
     if not path.is_absolute() and not path.exists():
         path = VERIF / path
     j = json.loads(path.read_text())
-    if isinstance(j, list):
-        j = j[0]
+    if isinstance(j, list):   # a corpus file holding several cases: replay each, fail if any fails
+        rc = 0
+        for k, item in enumerate(j):
+            print(f"--- case {k + 1}/{len(j)} of {path.name}")
+            rc = max(rc, _replay_one(pid, plugin, path, item))
+        return rc
+    return _replay_one(pid, plugin, path, j)
+
+
+def _replay_one(pid: str, plugin, path: Path, j: dict) -> int:
     if "op" in j and "case" in j:  # corpus format
         case = j
     else:
